@@ -6,7 +6,7 @@
 //!      the module list is [(mbase, msize), extra modules…]; modules without symbols are unknown to the supplier
 //!   G  Symbolizer::get_symbol_at_address(debug_file, debug_id, instr)   (module base 0, name only)
 //! case:  M <mbase> <msize> [X <k> (<base> <size> <hassym>)*k] Q <n> <instr>*n R <item>*   (see ocaml/c11/main.ml)
-//!        item `Y <bits>` sets the text style: 1 CRLF line ends, 2 upper-case hex, 4 a leading zero on hex fields
+//!        item `Y <bits>` sets the text style: 1 CRLF line ends, 2 upper-case hex, 4 a leading zero on hex fields, 8 space-tab-space between fields
 //! answer: T<tables>;D<out>/S<idx>:<out>/G<name>;...;X<twin>    names are printed as the integer they encode.
 //!   X  twins of the file, parsed and queried again: the INLINE ranges of every FUNC block permuted (`order`), every FILE /
 //!      INLINE_ORIGIN line moved to the end (`move`): `Xok` when the tables and every D answer are identical, else
@@ -118,9 +118,32 @@ fn hx(v: u64, style: u64, max_digits: usize) -> String {
     s
 }
 
+/// the field separators number `skip` .. `skip + n` of the line (single spaces) in the style of the file:
+/// bit 8 = space, tab, space (nom's space1 takes any run of spaces and tabs)
+fn sep(line: &str, skip: usize, n: usize, style: u64) -> String {
+    if style & 8 == 0 {
+        return line.to_string();
+    }
+    let (mut out, mut i) = (String::new(), 0);
+    for ch in line.chars() {
+        if ch == ' ' {
+            if i >= skip && i < skip + n {
+                out.push_str(" \t ");
+            } else {
+                out.push(' ');
+            }
+            i += 1;
+        } else {
+            out.push(ch);
+        }
+    }
+    out
+}
+
 fn render(t: &mut Toks) -> String {
     let mut text = String::from("MODULE Linux x86_64 ABCD1234 m1\n");
-    // text style (item `Y <bits>`, from there on): 1 = CRLF line ends (whole file), 2 = upper-case hex, 4 = a leading zero
+    // text style (item `Y <bits>`, from there on): 1 = CRLF line ends (whole file), 2 = upper-case hex, 4 = a leading zero,
+    // 8 = " \t " between the fields
     let mut st = 0u64;
     let mut crlf = false;
     while let Some(k) = t.opt() {
@@ -131,43 +154,48 @@ fn render(t: &mut Toks) -> String {
             }
             "F" => {
                 let (id, name) = (t.u64(), t.u64());
-                writeln!(text, "FILE {} {}", id, self::name('s', name)).unwrap();
+                text.push_str(&sep(&format!("FILE {} {}\n", id, self::name('s', name)), 0, 2, st));
             }
             "O" => {
                 let (id, name) = (t.u64(), t.u64());
-                writeln!(text, "INLINE_ORIGIN {} {}", id, self::name('o', name)).unwrap();
+                text.push_str(&sep(&format!("INLINE_ORIGIN {} {}\n", id, self::name('o', name)), 0, 2, st));
             }
             "P" => {
                 let (a, ps, name) = (t.u64(), t.u64(), t.u64());
-                writeln!(text, "PUBLIC {}{} {} {}", mflag(name), hx(a, st, 16), hx(ps, st, 8), self::name('p', name)).unwrap();
+                let l = format!("PUBLIC {}{} {} {}\n", mflag(name), hx(a, st, 16), hx(ps, st, 8), self::name('p', name));
+                text.push_str(&sep(&l, 0, 3 + mflag(name).len() / 2, st));
             }
             "U" => {
                 let (a, s, ps, name) = (t.u64(), t.u64(), t.u64(), t.u64());
-                writeln!(text, "FUNC {}{} {} {} {}", mflag(name), hx(a, st, 16), hx(s, st, 8), hx(ps, st, 8), self::name('f', name)).unwrap();
+                let l = format!("FUNC {}{} {} {} {}\n", mflag(name), hx(a, st, 16), hx(s, st, 8), hx(ps, st, 8), self::name('f', name));
+                text.push_str(&sep(&l, 0, 4 + mflag(name).len() / 2, st));
             }
             "Z" => {
                 // a FUNC line made over-long (> MAX_BUFFER_CAPACITY) by padding its name: the parse loop drops it
                 let (a, s, ps, name, len) = (t.u64(), t.u64(), t.u64(), t.u64(), t.usize());
-                writeln!(text, "FUNC {} {} {} {}{}", hx(a, st, 16), hx(s, st, 8), hx(ps, st, 8), self::name('f', name), "x".repeat(len)).unwrap();
+                let l = format!("FUNC {} {} {} {}{}\n", hx(a, st, 16), hx(s, st, 8), hx(ps, st, 8), self::name('f', name), "x".repeat(len));
+                text.push_str(&sep(&l, 0, 4, st));
             }
             "L" => {
                 let (a, s, ln, fl) = (t.u64(), t.u64(), t.u64(), t.u64());
-                writeln!(text, "{} {} {} {}", hx(a, st, 16), hx(s, st, 8), ln, fl).unwrap();
+                text.push_str(&sep(&format!("{} {} {} {}\n", hx(a, st, 16), hx(s, st, 8), ln, fl), 0, 3, st));
             }
             "I" => {
                 let (d, cl, cf, og) = (t.u64(), t.u64(), t.u64(), t.u64());
                 let k = t.usize();
-                write!(text, "INLINE {} {} {} {}", d, cl, cf, og).unwrap();
+                let mut l = format!("INLINE {} {} {} {}", d, cl, cf, og);
                 for _ in 0..k {
                     let (a, s) = (t.u64(), t.u64());
-                    write!(text, " {} {}", hx(a, st, 16), hx(s, st, 8)).unwrap();
+                    write!(l, " {} {}", hx(a, st, 16), hx(s, st, 8)).unwrap();
                 }
-                text.push('\n');
+                l.push('\n');
+                text.push_str(&sep(&l, 0, 4 + 2 * k, st));
             }
             "W" => {
                 let (ty, a, s, ps, tag) = (t.u64(), t.u64(), t.u64(), t.u64(), t.u64());
                 let (hp, rest) = if ty == 4 { (1, "$eip 4 + ^ =") } else { (0, "0") };
-                writeln!(text, "STACK WIN {:x} {} {} {} 0 {} 0 0 0 {} {}", ty, hx(a, st, 16), hx(s, st, 8), hx(tag, st, 8), hx(ps, st, 8), hp, rest).unwrap();
+                let l = format!("STACK WIN {:x} {} {} {} 0 {} 0 0 0 {} {}\n", ty, hx(a, st, 16), hx(s, st, 8), hx(tag, st, 8), hx(ps, st, 8), hp, rest);
+                text.push_str(&sep(&l, 1, 11, st));
             }
             other => panic!("bad item {}", other),
         }
@@ -185,7 +213,7 @@ fn permuted(text: &str) -> String {
     const TOP: [&str; 6] = ["FUNC ", "PUBLIC ", "FILE ", "STACK ", "MODULE ", "INFO "];
     let mut out: Vec<String> = text.lines().map(|s| s.to_string()).collect();
     let flip = |l: &str| -> String {
-        let t: Vec<&str> = l.split(' ').filter(|x| !x.is_empty()).collect();
+        let t: Vec<&str> = l.split_whitespace().collect();
         let mut r: Vec<String> = t[..5].iter().map(|s| s.to_string()).collect();
         let pairs: Vec<&[&str]> = t[5..].chunks(2).collect();
         for p in pairs.iter().rev() {
